@@ -586,5 +586,13 @@ def _keys_hash(run):
             gotk = {canon_dict_iter(x, dicts=("pubkeys_map",)) for x in PV.expand_consistent(lp_, None, st[0].targets[0].slice, sn, stop=("pubkeys_map",))}
             gotv = {canon_dict_iter(x, dicts=("pubkeys_map",)) for x in PV.expand_consistent(lp_, None, st[0].value, sn, stop=("pubkeys_map",))}
         oks = gotk == {"KEY(pubkeys_map)"} and gotv == {"ec.PublicKey(bytes.fromhex(VAL(pubkeys_map)), raw=True)"}
+    # ... for every entry of the file: the loop neither skips nor stops (an entry left out changes the hash the operator's keys are compared by)
+    for lp in [n for n in A.own_nodes(lp_) if isinstance(n, (ast.For, ast.While))]:
+        skips = [n for n in ast.walk(lp) if isinstance(n, (ast.Break, ast.Continue))]
+        inl = {id(x) for x in ast.walk(lp)}
+        conds = [f.text() for s_ in st for sn in gl.nodes_of(s_) for f in F.local(lp_, None, sn) if f.node is not None and f.node.ast is not None and id(f.node.ast) in inl]
+        run.check("R3", isinstance(lp, ast.For) and not skips and not conds, "every entry of the keys file is loaded", key="load_pubkeys|every-entry", where=lp_.loc(lp),
+                  message=f"load_pubkeys can skip entries of the public keys file ({'continue/break' if skips else 'store conditional on ' + str(conds[:2])}): the "
+                          "keys hash compared with the attested one is then computed over fewer keys than the operator supplied")
     run.check("R3", oks, "every value parsed as a secp256k1 point and stored under its own path", key="load_pubkeys|parse", where=lp_.loc(),
               message=f"load_pubkeys stores result[{sorted(gotk or [])}] = {sorted(gotv or [])}; expected result[path] = ec.PublicKey(bytes.fromhex(<value at path>), raw=True)")
